@@ -113,20 +113,82 @@ func runC17(c *Ctx) {
 			op, other, ok := relOn("readersActive")(rel)
 			return ok && other == "0" && (op == "!=" || op == ">")
 		}})
-	// Counter: direction tests
+	// Counter: direction tests. The relations are read on the resolved keys (helper parameters replaced
+	// by their arguments) and a difference compared with zero is the comparison of its operands:
+	// 0 < (a-b) is b < a. The operands are found structurally: new = Set's parameter, old = the value
+	// the locked helper set() returned; delta = Update's parameter.
+	counterNames := func(method string) (par, old string) {
+		fd := p.FuncDecl(pkg, "Counter", method)
+		if fd == nil || len(fd.Type.Params.List) == 0 || len(fd.Type.Params.List[0].Names) == 0 {
+			return "?", "?"
+		}
+		par = fd.Type.Params.List[0].Names[0].Name
+		ast.Inspect(fd.Body, func(n ast.Node) bool {
+			if as, ok := n.(*ast.AssignStmt); ok && len(as.Lhs) == 1 && len(as.Rhs) == 1 {
+				if cl, ok := ast.Unparen(as.Rhs[0]).(*ast.CallExpr); ok && selectorCall(info, cl, "", "set") {
+					old = exprKey(as.Lhs[0])
+				}
+			}
+			return true
+		})
+		return par, old
+	}
+	setNew, setOld := counterNames("Set")
+	updDelta, _ := counterNames("Update")
+	isOld := func(k string) bool { return k == setOld || strings.HasSuffix(k, ".set("+setNew+")") }
+	// lessThan(rel, a, b): rel says a < b (directly, or through a difference compared with zero / one)
+	splitDiff := func(k string) (string, string, bool) {
+		if !strings.HasPrefix(k, "(") || !strings.HasSuffix(k, ")") {
+			return "", "", false
+		}
+		in, depth := k[1:len(k)-1], 0
+		for i := 0; i < len(in); i++ {
+			switch in[i] {
+			case '(', '[':
+				depth++
+			case ')', ']':
+				depth--
+			case '-':
+				if depth == 0 && i > 0 {
+					return in[:i], in[i+1:], true
+				}
+			}
+		}
+		return "", "", false
+	}
+	lessThan := func(rel Rel, isA, isB func(string) bool) bool {
+		if rel.Op == "<" && isA(rel.L) && isB(rel.R) {
+			return true
+		}
+		// 0 < (b-a), 1 <= (b-a)
+		if (rel.Op == "<" && rel.L == "0") || (rel.Op == "<=" && rel.L == "1") {
+			if x, y, ok := splitDiff(rel.R); ok && isB(x) && isA(y) {
+				return true
+			}
+		}
+		// (a-b) < 0, (a-b) <= -1
+		if (rel.Op == "<" && rel.R == "0") || (rel.Op == "<=" && rel.R == "-1") {
+			if x, y, ok := splitDiff(rel.L); ok && isA(x) && isB(y) {
+				return true
+			}
+		}
+		return false
+	}
+	isNew := func(k string) bool { return k == setNew }
+	isDelta := func(k string) bool { return k == updDelta }
 	for _, row := range []struct {
 		method string
 		rel    func(Rel) bool
 		cond   string
 		name   string
 	}{
-		{"Set", func(rel Rel) bool { return rel.Op == "<" && rel.L == "oldValue" && rel.R == "newValue" }, "valueIncreasedCond", "value increased"},
-		{"Set", func(rel Rel) bool { return rel.Op == "<" && rel.L == "newValue" && rel.R == "oldValue" }, "valueDecreasedCond", "value decreased"},
+		{"Set", func(rel Rel) bool { return lessThan(rel, isOld, isNew) }, "valueIncreasedCond", "value increased"},
+		{"Set", func(rel Rel) bool { return lessThan(rel, isNew, isOld) }, "valueDecreasedCond", "value decreased"},
 		{"Update", func(rel Rel) bool {
-			return (rel.Op == "<=" && rel.L == "1" && rel.R == "delta") || (rel.Op == "<" && rel.L == "0" && rel.R == "delta")
+			return (rel.Op == "<=" && rel.L == "1" && isDelta(rel.R)) || (rel.Op == "<" && rel.L == "0" && isDelta(rel.R))
 		}, "valueIncreasedCond", "value increased"},
 		{"Update", func(rel Rel) bool {
-			return (rel.Op == "<=" && rel.L == "delta" && rel.R == "-1") || (rel.Op == "<" && rel.L == "delta" && rel.R == "0")
+			return (rel.Op == "<=" && isDelta(rel.L) && rel.R == "-1") || (rel.Op == "<" && isDelta(rel.L) && rel.R == "0")
 		}, "valueDecreasedCond", "value decreased"},
 	} {
 		f := p.CFGOf(pkg, "Counter", row.method)
@@ -135,7 +197,9 @@ func runC17(c *Ctx) {
 			r.Unresolved("cond/wake-obligation", key, "method not found")
 			continue
 		}
-		edges := f.RelEdges(row.rel)
+		f.CallsOpaque = true // the old value is "what set() returned", not the field it read
+		edges := f.RelEdgesAt(row.rel)
+		f.CallsOpaque = false
 		if len(edges) == 0 {
 			r.Fail("cond/wake-obligation", key, f.P.posStr(f.Body.Pos()), "the direction of the change is not tested: waiters of this direction are never woken")
 			continue
